@@ -345,7 +345,7 @@ struct RingWorld : World {
 			unsigned k = (x >> 24) % 7; size_t n = 1 + (x >> 16) % 9;
 			uint8_t buf[16];
 			if (k >= 5) {
-				// the I/O device face of the queue: write appends blocks, read takes blocks off the end (that is what mpt_qpop does)
+				// the I/O device face of the queue: write appends blocks, read takes blocks from the front - the bytes peek() shows, in the order they were written
 				size_t part = 1 + (x >> 8) % 4, cnt = 1 + (x >> 12) % 4; uint8_t big[16];
 				if (k == 5) {
 					for (size_t j = 0; j < part * cnt; ++j) big[j] = ser++ ? ser : ++ser;
@@ -361,7 +361,7 @@ struct RingWorld : World {
 					log.ev("  cxx read %zu x %zu -> %zd (stored %zu)", cnt, part, r, d.size());
 					size_t can = std::min(cnt, d.size() / part);
 					if (r < 0 || (size_t) r != can) fail("read", "C++ queue read of %zu blocks of %zu bytes returned %zd with %zu bytes stored", cnt, part, r, d.size());
-					for (size_t b = 0; b < can; ++b) { for (size_t j = 0; j < part; ++j) { uint8_t w = d[d.size() - part + j]; if (big[b * part + j] != w) fail("read", "C++ queue read block %zu byte %zu is %02x, the stored byte is %02x", b, j, big[b * part + j], w); } d.erase(d.end() - (ptrdiff_t) part, d.end()); }
+					for (size_t b = 0; b < can; ++b) { for (size_t j = 0; j < part; ++j) { uint8_t w = d[j]; if (big[b * part + j] != w) fail("read", "C++ queue read block %zu byte %zu is %02x, the oldest stored bytes (what peek shows) have %02x there", b, j, big[b * part + j], w); } d.erase(d.begin(), d.begin() + (ptrdiff_t) part); }
 				}
 				if (cq->_d.len != d.size()) fail("content", "C++ queue holds %zu bytes, a deque would hold %zu", cq->_d.len, d.size());
 				continue;
